@@ -461,3 +461,32 @@ def apply_num(eng, st, inp, rt, mode, order, ty):
         # a complete (non-streaming) primitive: is its short-input outcome feasible here?
         eng.events.append(("complete_prim", "%s_%s" % (order.lower(), ty), short))
     return outs
+
+
+@contract(r"^nom::Needed::new$|^nom::internal::Needed::new$")
+def c_needed_new(eng, st, fr, f, args, site):
+    """`Needed::new(n)`: Size(n) for n != 0, Unknown for 0."""
+    rt = ret_ty(eng, site)
+    v = force(eng, st, args[0]) if args else None
+    if rt is None or not isinstance(v, Int):
+        return None
+    nz = variant_payload_ty(eng, rt, 1)
+    size = lambda: Enum(rt, ((1, (Struct(nz, (Int(v.lin, None, 64, False, frozenset()),)),)),), "needed")
+    if st.holds(v.lin.sub(1), eng):
+        return [(st, size())]
+    if v.lin.is_const() and v.lin.c == 0:
+        return [(st, Enum(rt, ((0, ()),), "needed"))]
+    outs = []
+    ns = st.fork()
+    try:
+        ns.add_fact(v.lin.sub(1), eng)
+        outs.append((ns, size()))
+    except Dead:
+        pass
+    ns = st.fork()
+    try:
+        ns.add_fact(v.lin.neg(), eng)
+        outs.append((ns, Enum(rt, ((0, ()),), "needed")))
+    except Dead:
+        pass
+    return outs
